@@ -1,6 +1,6 @@
 #!/bin/bash
 # dev helper: build argh and run one mode directly: tools/argh_try.sh <mode> <seed> <cases> [opts...]
-cd /verif
+cd /verif; export VERIF_REPO=${VERIF_REPO:-/tmp/dev-repo}
 A=$(python3 -c "
 import sys; sys.path.insert(0,'/verif')
 from lib import build
